@@ -155,6 +155,194 @@ Lemma bootstrap_no_extra_authority adm rest db :
   u_admin adm = true -> authorize_query [adm] (Some adm) rest db = QOk.
 Proof. intros H. unfold authorize_query. cbn. rewrite H. reflexivity. Qed.
 
+(* ---------- user-management statements of the executor ---------- *)
+
+Definition names_unique (us : list user) : Prop := NoDup (map u_name us).
+
+Lemma find_user_none_names us n : find_user us n = None -> ~ In n (map u_name us).
+Proof.
+  induction us as [|u us IH]; cbn [find_user map]; [intros _ []|].
+  destruct (str_eqb (u_name u) n) eqn:E; [discriminate|]. intros H [H1|H1].
+  - apply str_eqb_neq in E. contradiction.
+  - exact (IH H H1).
+Qed.
+
+Lemma names_find_user_none us n : ~ In n (map u_name us) -> find_user us n = None.
+Proof.
+  intros H. destruct (find_user us n) as [u|] eqn:E; [|reflexivity].
+  destruct (find_user_some _ _ _ E) as [Hin Hn]. exfalso. apply H. rewrite <- Hn. apply in_map. exact Hin.
+Qed.
+
+Lemma map_first_user_names f us n :
+  (forall u, u_name (f u) = u_name u) -> map u_name (map_first_user f us n) = map u_name us.
+Proof.
+  intros Hf. induction us as [|u us IH]; cbn [map_first_user map]; [reflexivity|].
+  destruct (str_eqb (u_name u) n); cbn [map]; [rewrite Hf; reflexivity|rewrite IH; reflexivity].
+Qed.
+
+Lemma find_user_map_first f us n :
+  (forall u, u_name (f u) = u_name u) ->
+  find_user (map_first_user f us n) n = option_map f (find_user us n).
+Proof.
+  intros Hf. induction us as [|u us IH]; cbn [map_first_user find_user]; [reflexivity|].
+  destruct (str_eqb (u_name u) n) eqn:E; cbn [find_user].
+  - rewrite Hf, E. reflexivity.
+  - rewrite E. exact IH.
+Qed.
+
+Lemma drop_first_user_in us n a : In a (map u_name (drop_first_user us n)) -> In a (map u_name us).
+Proof.
+  induction us as [|u us IH]; cbn [drop_first_user map]; [tauto|].
+  destruct (str_eqb (u_name u) n); cbn [map In]; [tauto|]. intros [H|H]; [left; exact H|right; exact (IH H)].
+Qed.
+
+Lemma drop_first_user_unique us n : names_unique us -> names_unique (drop_first_user us n).
+Proof.
+  unfold names_unique. induction us as [|u us IH]; cbn [drop_first_user map]; [tauto|].
+  intros H. inversion H as [|x l Hnin Hnd]; subst.
+  destruct (str_eqb (u_name u) n); [exact Hnd|]. cbn [map]. constructor; [|exact (IH Hnd)].
+  intros Hc. apply Hnin. exact (drop_first_user_in _ _ _ Hc).
+Qed.
+
+Lemma find_user_drop_first us n : names_unique us -> find_user (drop_first_user us n) n = None.
+Proof.
+  unfold names_unique. induction us as [|u us IH]; cbn [drop_first_user map]; [reflexivity|].
+  intros H. inversion H as [|x l Hnin Hnd]; subst.
+  destruct (str_eqb (u_name u) n) eqn:E.
+  - apply str_eqb_eq in E. rewrite E in Hnin. apply names_find_user_none. exact Hnin.
+  - cbn [find_user]. rewrite E. exact (IH Hnd).
+Qed.
+
+Lemma NoDup_snoc {A} (l : list A) x : NoDup l -> ~ In x l -> NoDup (l ++ [x]).
+Proof.
+  induction l as [|a l IH]; cbn [app]; intros Hnd Hx; [constructor; [intros []|constructor]|].
+  inversion Hnd as [|y l' Ha Hl]; subst. constructor.
+  - intros Hc. apply in_app_or in Hc. destruct Hc as [Hc|[Hc|[]]]; [exact (Ha Hc)|]. apply Hx. left. symmetry. exact Hc.
+  - apply IH; [exact Hl|]. intros Hc. apply Hx. right. exact Hc.
+Qed.
+
+Lemma apply_mop_unique m o : names_unique (m_users m) -> names_unique (m_users (snd (apply_mop m o))).
+Proof.
+  intros H. destruct o as [name hash admin|name|name hash|name db p|name admin|db|db]; cbn [apply_mop].
+  - destruct (is_empty name); [exact H|]. destruct (find_user (m_users m) name) eqn:E; [exact H|].
+    cbn [snd m_users]. unfold names_unique. rewrite map_app. cbn [map u_name].
+    apply NoDup_snoc; [exact H|]. apply find_user_none_names. exact E.
+  - destruct (find_user (m_users m) name); [|exact H]. cbn [snd m_users]. apply drop_first_user_unique. exact H.
+  - destruct (find_user (m_users m) name); [|exact H]. cbn [snd m_users]. unfold names_unique.
+    rewrite map_first_user_names; [exact H|reflexivity].
+  - destruct (find_user (m_users m) name); [|exact H]. destruct (mem_str db (m_dbs m)); [|exact H].
+    cbn [snd m_users]. unfold names_unique. rewrite map_first_user_names; [exact H|reflexivity].
+  - destruct (find_user (m_users m) name); [|exact H]. cbn [snd m_users]. unfold names_unique.
+    rewrite map_first_user_names; [exact H|reflexivity].
+  - destruct (is_empty db); [exact H|]. destruct (mem_str db (m_dbs m)); exact H.
+  - destruct (mem_str db (m_dbs m)); [|exact H]. cbn [snd m_users]. unfold names_unique.
+    rewrite map_map. cbn [u_name]. exact H.
+Qed.
+
+Lemma exec_stmt_unique m x : names_unique (m_users m) -> names_unique (m_users (snd (exec_stmt m x))).
+Proof.
+  intros H. destruct x as [n d p|n d p|n|n|n h|n|]; cbn [exec_stmt]; try (apply apply_mop_unique; exact H).
+  - destruct (p =? AllPrivileges); [apply apply_mop_unique; exact H|].
+    destruct (user_privilege m n d); [apply apply_mop_unique; exact H|exact H].
+  - exact H.
+Qed.
+
+Lemma lookup_set_priv ps d p : lookup_priv (set_priv ps d p) d = Some p.
+Proof.
+  induction ps as [|[d0 q] ps IH]; cbn [set_priv lookup_priv]; [rewrite str_eqb_refl; reflexivity|].
+  destruct (str_eqb d0 d) eqn:E; cbn [lookup_priv]; rewrite E; [reflexivity|exact IH].
+Qed.
+
+Lemma lookup_set_priv_other ps d p d' : str_eqb d d' = false -> lookup_priv (set_priv ps d p) d' = lookup_priv ps d'.
+Proof.
+  intros Hne. induction ps as [|[d0 q] ps IH]; cbn [set_priv lookup_priv]; [rewrite Hne; reflexivity|].
+  destruct (str_eqb d0 d) eqn:E; cbn [lookup_priv].
+  - apply str_eqb_eq in E. subst d0. rewrite Hne. reflexivity.
+  - destruct (str_eqb d0 d'); [reflexivity|exact IH].
+Qed.
+
+(* a grant with no bit of r in it covers no need that has a bit of r *)
+Lemma revoked_not_covered g r need :
+  N.land g r = 0 -> N.land need AllPrivileges = need -> need <> 0 -> N.land need r <> 0 ->
+  grant_covers (Some g) need = false.
+Proof.
+  intros Hg Hn3 Hn0 Hnr. unfold grant_covers, NoPrivileges.
+  destruct (N.eqb_spec need 0) as [E|_]; [contradiction|]. cbn [orb].
+  destruct (N.eqb_spec g need) as [E|_]; [subst g; contradiction|]. cbn [orb].
+  destruct (N.eqb_spec g AllPrivileges) as [E|_]; [|reflexivity].
+  exfalso. apply Hnr. rewrite <- Hn3, <- N.land_assoc. subst g. rewrite Hg. apply N.land_0_r.
+Qed.
+
+(* SetPrivilege on an existing user and database sets exactly that entry *)
+Lemma set_priv_effect m name db p m' :
+  apply_mop m (OSetPriv name db p) = (true, m') ->
+  exists u, find_user (m_users m) name = Some u /\
+    find_user (m_users m') name = Some (mkUser (u_name u) (u_hash u) (u_admin u) (set_priv (u_privs u) db p)).
+Proof.
+  cbn [apply_mop]. destruct (find_user (m_users m) name) as [u|] eqn:E; [|discriminate].
+  destruct (mem_str db (m_dbs m)); [|discriminate]. intros H. inversion H; subst. exists u. split; [reflexivity|].
+  cbn [m_users]. rewrite find_user_map_first by reflexivity. rewrite E. reflexivity.
+Qed.
+
+(* revoke_removes_exactly: after a successful REVOKE r ON db FROM name the user's entry for db
+   is held &^ r (0 for ALL), every other entry of his map is untouched, and no need
+   overlapping r is covered by the grant any more *)
+Lemma revoke_removes_exactly_lemma m name db r m' :
+  exec_stmt m (XRevoke name db r) = (true, m') ->
+  exists u u', find_user (m_users m) name = Some u /\ find_user (m_users m') name = Some u' /\
+    u_name u' = u_name u /\ u_hash u' = u_hash u /\ u_admin u' = u_admin u /\
+    lookup_priv (u_privs u') db =
+      Some (if r =? AllPrivileges then NoPrivileges
+            else N.ldiff (match lookup_priv (u_privs u) db with Some p => p | None => NoPrivileges end) r) /\
+    (forall d', str_eqb db d' = false -> lookup_priv (u_privs u') d' = lookup_priv (u_privs u) d') /\
+    (forall need, N.land need AllPrivileges = need -> need <> 0 -> N.land need r <> 0 ->
+                  grant_covers (lookup_priv (u_privs u') db) need = false).
+Proof.
+  cbn [exec_stmt]. intros H.
+  assert (Hg : exists g, apply_mop m (OSetPriv name db g) = (true, m') /\ N.land g r = 0 /\
+                g = (if r =? AllPrivileges then NoPrivileges
+                     else N.ldiff (match find_user (m_users m) name with
+                                   | Some u => match lookup_priv (u_privs u) db with Some p => p | None => NoPrivileges end
+                                   | None => 0 end) r)).
+  { destruct (r =? AllPrivileges) eqn:Er.
+    - exists NoPrivileges. split; [exact H|split; [apply N.land_0_l|reflexivity]].
+    - unfold user_privilege in H. destruct (find_user (m_users m) name) as [u|] eqn:E; [|discriminate].
+      eexists. split; [exact H|split; [apply N.land_ldiff|reflexivity]]. }
+  destruct Hg as [g [Hset [Hland Hgdef]]].
+  destruct (set_priv_effect _ _ _ _ _ Hset) as [u [Hu Hu']].
+  rewrite Hu in Hgdef.
+  exists u, (mkUser (u_name u) (u_hash u) (u_admin u) (set_priv (u_privs u) db g)).
+  split; [exact Hu|split; [exact Hu'|]]. cbn [u_name u_hash u_admin u_privs].
+  split; [reflexivity|split; [reflexivity|split; [reflexivity|]]].
+  rewrite lookup_set_priv. split; [rewrite Hgdef; reflexivity|]. split.
+  - intros d' Hd. apply lookup_set_priv_other. exact Hd.
+  - intros need H3 H0 Hr. apply (revoked_not_covered g r need); assumption.
+Qed.
+
+(* every successful user-management statement achieves what Spec.stmt_effect_ok demands *)
+Lemma stmt_effect_sound m x m' :
+  names_unique (m_users m) -> exec_stmt m x = (true, m') -> stmt_effect_ok x (m_users m') = true.
+Proof.
+  intros Hun H. destruct x as [n d p|n d r|n|n|n h|n|]; cbn [stmt_effect_ok]; [| | | | | |reflexivity].
+  - cbn [exec_stmt] in H. destruct (set_priv_effect _ _ _ _ _ H) as [u [_ Hu']]. rewrite Hu'. cbn [u_privs].
+    rewrite lookup_set_priv. unfold grant_covers. rewrite N.eqb_refl. destruct (p =? NoPrivileges); reflexivity.
+  - destruct (revoke_removes_exactly_lemma _ _ _ _ _ H) as [u [u' [_ [Hu' [_ [_ [_ [_ [_ Hcov]]]]]]]]].
+    rewrite Hu'. cbn [forallb]. rewrite andb_true_r.
+    assert (Hone : forall need, N.land need AllPrivileges = need -> need <> 0 ->
+              (N.land need r =? 0) || negb (grant_covers (lookup_priv (u_privs u') d) need) = true).
+    { intros need H3 H0. destruct (N.eqb_spec (N.land need r) 0) as [E|E]; [reflexivity|].
+      cbn [orb]. rewrite (Hcov need H3 H0 E). reflexivity. }
+    rewrite (Hone ReadPrivilege), (Hone WritePrivilege), (Hone AllPrivileges); try reflexivity; discriminate.
+  - cbn [exec_stmt apply_mop] in H. destruct (find_user (m_users m) n) as [u|] eqn:E; [|discriminate].
+    inversion H; subst. cbn [m_users]. rewrite find_user_map_first by reflexivity. rewrite E. reflexivity.
+  - cbn [exec_stmt apply_mop] in H. destruct (find_user (m_users m) n) as [u|] eqn:E; [|discriminate].
+    inversion H; subst. cbn [m_users]. rewrite find_user_map_first by reflexivity. rewrite E. reflexivity.
+  - cbn [exec_stmt apply_mop] in H. destruct (find_user (m_users m) n) as [u|] eqn:E; [|discriminate].
+    inversion H; subst. cbn [m_users]. rewrite find_user_map_first by reflexivity. rewrite E. cbn. apply N.eqb_refl.
+  - cbn [exec_stmt apply_mop] in H. destruct (find_user (m_users m) n) as [u|] eqn:E; [|discriminate].
+    inversion H; subst. cbn [m_users]. rewrite find_user_drop_first by exact Hun. reflexivity.
+Qed.
+
 (* ====================================================================== *)
 (* authentication: the credential cache                                    *)
 (* ====================================================================== *)
